@@ -6,6 +6,7 @@ for p in $(jq -r '.checks[].property_id' MANIFEST.json); do
   out=$(./check.sh $p $tier 2>&1); r=$?
   echo "$p exit=$r $(echo "$out" | grep '^govc:' | tail -1)"
   echo "$out" | grep -E '^(VIOLATION|KNOWN-FINDING|failed)' | cut -c1-220
+  [ $r -ge 2 ] && echo "$out" | tail -5 | cut -c1-300
   [ $r -ne 0 ] && rc=1
 done
 exit $rc
